@@ -1,6 +1,8 @@
 package drv
 
 import (
+	"crypto/tls"
+	"sort"
 	"fmt"
 	"net/http"
 	"net/url"
@@ -32,6 +34,7 @@ type CfgScript struct {
 	QKey   bool     `json:"queryKey"`
 	Keytab bool     `json:"keytab"`
 	NHosts int      `json:"nhosts"`
+	Spell  string   `json:"spell"` // canon | mixed | upper | alias: how keyword values are written
 	// cross
 	Key string `json:"key"` // paasign | sess | sessenc | userenc
 	Len int    `json:"len"`
@@ -66,6 +69,23 @@ func (r *Runner) KerberosFiles(kdcs []string) (kt string, conf string, err error
 	return
 }
 
+// spell writes a keyword value in the scenario's spelling.
+func spell(kind, v string) string {
+	switch kind {
+	case "mixed":
+		if len(v) > 0 {
+			return strings.ToUpper(v[:1]) + v[1:]
+		}
+	case "upper":
+		return strings.ToUpper(v)
+	case "alias":
+		if v == "local" {
+			return "basic"
+		}
+	}
+	return v
+}
+
 func hasStr(l []string, s string) bool {
 	for _, x := range l {
 		if x == s {
@@ -78,7 +98,7 @@ func hasStr(l []string, s string) bool {
 // RunStart starts the real binary under the scenario's configuration and
 // records whether it refused or came up.
 func (r *Runner) RunStart(s *CfgScript, tw *TraceWriter) error {
-	c := &gw.Config{Authentication: s.Auth, GatewayAddress: "https://127.0.0.1:%PORT%", SessionKey: KeySess, SessionEncKey: KeySessEnc,
+	c := &gw.Config{Authentication: append([]string{}, s.Auth...), GatewayAddress: "https://127.0.0.1:%PORT%", SessionKey: KeySess, SessionEncKey: KeySessEnc,
 		PAASigningKey: KeyPAASign, PAAEncKey: KeyPAAEnc, TokenAuth: gw.B(s.Token), Env: map[string]string{}}
 	if hasStr(s.Auth, "openid") {
 		idp, err := r.SharedIdP()
@@ -153,6 +173,30 @@ func (r *Runner) RunStart(s *CfgScript, tw *TraceWriter) error {
 			c.Hosts = nil
 		}
 	}
+	if s.Spell == "" {
+		s.Spell = "canon"
+	}
+	if s.Spell != "canon" {
+		for k, a := range c.Authentication {
+			c.Authentication[k] = spell(s.Spell, a)
+		}
+		if c.Tls == "disable" {
+			c.Tls = spell(s.Spell, c.Tls)
+		}
+		if c.HostSelection == "signed" {
+			c.HostSelection = spell(s.Spell, c.HostSelection)
+		}
+		if v, ok := c.Env["RDPGW_SERVER__AUTHENTICATION"]; ok {
+			parts := strings.Split(v, " ")
+			for k := range parts {
+				parts[k] = spell(s.Spell, parts[k])
+			}
+			c.Env["RDPGW_SERVER__AUTHENTICATION"] = strings.Join(parts, " ")
+		}
+		if v, ok := c.Env["RDPGW_SERVER__TLS"]; ok {
+			c.Env["RDPGW_SERVER__TLS"] = spell(s.Spell, v)
+		}
+	}
 	p, err := gw.Start(c, gw.StartOpts{Binary: r.BinGW, WorkDir: r.Work, NoWait: true, NoHooks: true})
 	if err != nil {
 		return err
@@ -185,9 +229,112 @@ func (r *Runner) RunStart(s *CfgScript, tw *TraceWriter) error {
 	if outcome == "timeout" {
 		return fmt.Errorf("gateway neither exited nor listened: %s", last)
 	}
-	tw.Line(M{"ev": "start", "script": s.ID, "cls": s.Src, "src": s.Src, "cfg": M{"auth": s.Auth, "tlsDisabled": s.TlsOff, "tokenAuth": s.Token, "signedSel": s.Signed, "queryKey": s.QKey, "keytab": s.Keytab, "nhosts": s.NHosts},
-		"outcome": outcome, "exit": exit, "lastlog": trunc(last, 160)})
+	eff := M{"tlsOff": false, "auth": []string{}, "tokenAuth": "unknown", "signedNoKey": false}
+	probed := false
+	if outcome == "listening" {
+		eff, probed = r.probeEffective(p, s, c)
+	}
+	tw.Line(M{"ev": "start", "script": s.ID, "cls": s.Src + "." + s.Spell, "src": s.Src, "cfg": M{"auth": s.Auth, "tlsDisabled": s.TlsOff, "tokenAuth": s.Token, "signedSel": s.Signed, "queryKey": s.QKey, "keytab": s.Keytab, "nhosts": s.NHosts, "spell": s.Spell},
+		"outcome": outcome, "exit": exit, "lastlog": trunc(last, 160), "eff": eff, "probed": probed})
 	return nil
+}
+
+// probeEffective finds out from outside what a running gateway actually does: whether it speaks TLS, which
+// authentication mechanisms answer, whether cookie authentication is required (where that can be seen without
+// credentials) and whether signed host selection accepts a query token made with the empty key.
+func (r *Runner) probeEffective(p *gw.Proc, s *CfgScript, c *gw.Config) (M, bool) {
+	eff := M{"tlsOff": false, "auth": []string{}, "tokenAuth": "unknown", "signedNoKey": false}
+	// TLS?
+	tlsOn := false
+	if raw, err := net.DialTimeout("tcp", p.Addr, 2*time.Second); err == nil {
+		tc := tls.Client(raw, &tls.Config{InsecureSkipVerify: true})
+		tc.SetDeadline(time.Now().Add(3 * time.Second))
+		if tc.Handshake() == nil {
+			tlsOn = true
+		}
+		tc.Close()
+	}
+	if !tlsOn {
+		st, _ := rawExchange(p.Addr, "GET", "/tokeninfo", nil, false, 3*time.Second)
+		if st <= 0 {
+			return eff, false // neither TLS nor plain HTTP answered: nothing can be said
+		}
+		eff["tlsOff"] = true
+	}
+	p.TLS = tlsOn
+	var idp *envx.IdP
+	if hasStr(s.Auth, "openid") {
+		idp, _ = r.SharedIdP()
+	}
+	in := &Inst{R: r, P: p, IdP: idp, Sym: map[string]string{}, Cfg: ScriptCfg{NoHooks: true}}
+	b := in.NewBrowser("", "")
+	auth := []string{}
+	open := false
+	if h, err := b.Get(in.BaseURL() + "/remoteDesktopGateway/"); err == nil {
+		if h.Status == 401 {
+			for _, v := range h.Header.Values("Www-Authenticate") {
+				switch strings.SplitN(strings.TrimSpace(v), " ", 2)[0] {
+				case "Basic":
+					auth = append(auth, "local")
+				case "NTLM":
+					auth = append(auth, "ntlm")
+				}
+			}
+		} else if h.Status != 404 {
+			open = true
+		}
+	} else {
+		return eff, false
+	}
+	// kerberos: the KDC proxy route exists only with that mechanism
+	if req, err := http.NewRequest("POST", in.BaseURL()+"/KdcProxy", strings.NewReader("")); err == nil {
+		if resp, err := b.C.Do(req); err == nil {
+			resp.Body.Close()
+			if resp.StatusCode != 404 && resp.StatusCode != 405 {
+				auth = append(auth, "kerberos")
+			}
+		}
+	}
+	openid := false
+	if h, err := b.Get(in.BaseURL() + "/connect"); err == nil && h.Status != 404 {
+		openid = true
+		auth = append(auth, "openid")
+	}
+	sort.Strings(auth)
+	eff["auth"] = auth
+	// cookie authentication can be seen without credentials only where the endpoint is open at HTTP level
+	if open {
+		if t, _, err := in.Open(OpenOpts{Transport: "ws"}); err == nil && t != nil {
+			if t.SendRaw(tsgu.Handshake(1, 0, 0, 0)) == nil {
+				if pkt, err := t.Recv(3 * time.Second); err == nil {
+					d := tsgu.Decode(pkt)
+					if d.Status == 0 {
+						eff["tokenAuth"] = "no" // a client offering no mechanism got in
+					} else {
+						eff["tokenAuth"] = "yes"
+					}
+				}
+			}
+			t.Close()
+		}
+	}
+	// signed selection that accepts a query token made with the empty key
+	host0 := "10.0.0.1:3389"
+	if openid && idp != nil && tlsOn && s.NHosts > 0 {
+		b.LoginID = idp.Register(newLogin("user1"))
+		if hops, err := b.Connect("", 6); err == nil && len(hops) > 0 {
+			b.LoginID = ""
+			last := hops[len(hops)-1]
+			if last.Status != 200 { // a logged-in session does not get a file without a host parameter: not round robin
+				now := time.Now().Unix()
+				qt := forge.JWS("HS256", []byte{}, forge.Header("HS256"), forge.Claims(map[string]interface{}{"iss": "rdpgw", "sub": host0, "exp": now + 300}))
+				if h, err := b.Get(in.BaseURL() + "/connect?host=" + url.QueryEscape(qt)); err == nil && h.Status == 200 && strings.Contains(h.Body, host0) {
+					eff["signedNoKey"] = true
+				}
+			}
+		}
+	}
+	return eff, true
 }
 
 // RunCross starts two instances from the same configuration in which one key
